@@ -6,7 +6,8 @@ from bounded.common import Suite, mk, layouts, FmtStr, Chunk, fmtstr
 LEVEL = "proof"
 CONTRACTS = [F.divides, F.splice, F.append]
 ASSUMPTIONS = [
-    "fmtstr(s) == FmtStr(Chunk(s)) for a plain str free of 'ESC[' (assumed contract; a str `new` value goes through fmtstr)",
+    "fmtstr(s) == FmtStr(Chunk(s)) for a str free of 'ESC[' (a str `new` value goes through fmtstr): callee contract, verified against the "
+    "real fmtstr / FmtStr.from_str bodies in C06 (fmtstr#plain)",
     "FmtStr.__len__/.s through their contracts (bodies verified under the memo invariant in C13)",
     "fold lemma 'sum of run lengths = length of the concatenation' for divides' last element (lean/Lemmas.lean)",
     "list-homomorphism lemma schemas (DESIGN 2.5)",
